@@ -9,8 +9,8 @@
    extend_haplotypes has no theorem here: it is checked at specification level only
    (harness family `extend`). *)
 From Coq Require Import List ZArith Bool Permutation.
-From TskVerif Require Import Base.Common C11.Model C11.Spec C11.IntervalProofs C11.SitesProofs
-     C11.KeepProofs C11.TrimProofs C11.TimeProofs C11.Main.
+From TskVerif Require Import Base.Common Gen.Generated C11.Model C11.Spec C11.IntervalProofs C11.SitesProofs
+     C11.KeepProofs C11.TrimProofs C11.TrimMutProofs C11.TimeProofs C11.TotalProofs C11.Main.
 Import ListNotations.
 Open Scope Z_scope.
 
@@ -56,6 +56,21 @@ Theorem keep_intervals_sites_rows : forall srt ivs t t',
   t_sites t' = filter (fun st => in_ivs ivs (s_pos st)) (t_sites t) /\
   t_muts t' = map (renumber smask mmask) (filter (fun m => kept smask (m_site m)) (t_muts t)).
 Proof. exact keep_intervals_sites_rows_lemma. Qed.
+
+(* the model does not escape into OOB on tables whose references are in range, and refuses
+   exactly the malformed interval lists: the [= Ok t'] hypotheses above are satisfiable for
+   every valid input *)
+Theorem keep_intervals_total : forall srt ivs t,
+  intervals_ok 0 (t_L t) ivs = true -> refs_ok t -> exists t', keep_intervals srt ivs t = Ok t'.
+Proof. exact keep_intervals_total. Qed.
+
+Theorem keep_intervals_rejects_malformed : forall srt ivs t,
+  intervals_ok 0 (t_L t) ivs = false -> keep_intervals srt ivs t = Err 1.
+Proof. exact keep_intervals_rejects. Qed.
+
+Theorem delete_sites_total : forall ids t,
+  (forall i, In i ids -> 0 <= i < zlen (t_sites t)) -> refs_ok t -> exists t', delete_sites ids t = Ok t'.
+Proof. exact delete_sites_total. Qed.
 
 (* a renumbered site reference names the same site row as before *)
 Theorem renumbered_site_reference : forall smask mmask (sites : list site) m,
@@ -144,6 +159,16 @@ Theorem trim_repaired_shift : forall t t',
   (forall x c p md, edge_at (t_edges t') (x - d) c p md <-> edge_at (t_edges t) x c p md).
 Proof. exact trim_repaired_shift_lemma. Qed.
 
+(* ... and its mutations: one renumbering by the fused site mask (the two passes compose) *)
+Theorem trim_repaired_mutations : forall t t',
+  trim_repaired t = Ok t' -> parents_same_site (t_muts t) ->
+  let d := leftmost t in
+  let r := rightmost t in
+  let smask := map (fun s => (s_pos s <? r) && (d <=? s_pos s)) (t_sites t) in
+  t_muts t' = map (renumber smask (site_mask_of_muts smask (t_muts t)))
+                  (filter (fun m => kept smask (m_site m)) (t_muts t)).
+Proof. exact trim_repaired_mutations_lemma. Qed.
+
 (* the code as it exists today: the same shift, but every edge and migration row comes out
    with EMPTY metadata (finding F7); topology is still preserved *)
 Theorem ltrim_current_erases_metadata : forall t t',
@@ -175,6 +200,21 @@ Theorem trim_accepts_migration_outside_edges_refuted :
                   ltrim_repaired t = Err 1.
 Proof. exact trim_accepts_migration_outside_edges_refuted_lemma. Qed.
 
+(* which variant the correspondence follows is decided by facts regenerated from the source
+   on every run: repaired source => the repaired model (and [trim_shift] is about the code);
+   untouched source => the model of the pinned commit *)
+Theorem ltrim_current_is_repaired :
+  C11_ltrim_passes_edge_metadata = true -> C11_ltrim_passes_migration_metadata = true ->
+  C11_trim_check_uses_or = true ->
+  ltrim_current = ltrim_repaired /\ rtrim_current = rtrim_repaired /\ trim_current = trim_repaired.
+Proof. exact ltrim_current_is_repaired_lemma. Qed.
+
+Theorem ltrim_current_is_pinned :
+  C11_ltrim_passes_edge_metadata = false -> C11_ltrim_passes_migration_metadata = false ->
+  C11_trim_check_uses_or = false ->
+  ltrim_current = ltrim /\ rtrim_current = rtrim /\ trim_current = trim.
+Proof. exact ltrim_current_is_pinned_lemma. Qed.
+
 (* (g) delete_older: rows are removed by time exactly as documented, retained rows are
    identical (mutation parents renumbered, a removed parent becomes NULL) *)
 Theorem delete_older_spec : forall t tb tb',
@@ -204,7 +244,7 @@ Theorem split_edges_spec : forall srt t flags pop md npop tb tb',
   t_L tb' = t_L tb /\ t_sites tb' = t_sites tb /\ t_migs tb' = [] /\
   t_nodes tb' = ns ++ repeat (mkN flags t pop (-1) md) k /\
   Permutation (t_edges tb') (flat_map split_rows pairs) /\
-  Forall2 (moved_ok ns t (t_sites tb) pairs) (t_muts tb) (t_muts tb').
+  Forall2 (moved_ok ns t (t_edges tb) (t_sites tb) pairs) (t_muts tb) (t_muts tb').
 Proof. exact split_edges_spec_lemma. Qed.
 
 (* fresh nodes are distinct per table row and lie in [N, N + k) *)
